@@ -1,6 +1,6 @@
 (* Properties_C14.v — C14: ray casting visits a connected, in-bounds chain of cells covering the segment. *)
 From Coq Require Import Reals ZArith List Bool Arith Lia Lra.
-From Romea Require Import Num NumR GridMapModel GridMapProofs RayCastModel RayCastProofs RayCastMerge RayCastSegment.
+From Romea Require Import Num NumR GridMapModel GridMapProofs RayCastModel RayCastProofs RayCastMerge RayCastSegment RayCastAssembly.
 Import ListNotations.
 
 (* The walk of cast(), over exact arithmetic, for a 2D or 3D caster whose per-axis steps point from the origin
@@ -120,10 +120,49 @@ Theorem C14_setup_establishes_invariant : forall (a : axis (T:=R)) (oc dirc : R)
   (st = 0%Z -> dirc = 0%R).
 Proof. exact axis_setup_crossing. Qed.
 
-(* REMAINING GAP (assembly, not proved): lifting the per-axis theorems (C14_step_points_to_end_index,
-   C14_increment_nonnegative, C14_setup_establishes_invariant, the C13 theorems) to the list-level premises of C14_cast_walk and
-   C14_cells_meet_segment for the lists that set_end builds with map/combine, and the bound B on the crossing
-   parameters.  The exact-rational oracle checks the conclusion itself on every run. *)
+(* END TO END, 2D and 3D: for a grid of resolution r > 0 over the extent [lo_i, hi_i], an origin o and an end point e
+   inside the extent with o <> e, the caster that cast(o, e) builds — set_end (set_origin (rc_init axes) o) e — visits
+   L1+1 cells, from the origin cell to the END CELL, by face-adjacent steps, inside the index box of the two cells, and
+   every visited cell is met by the segment [o, e].  The only hypothesis left is that the crossing parameters needed by
+   the walk do not exceed numeric_limits::max() (bound B < M on the computed fields). *)
+Theorem C14_cast_2d_end_to_end : forall (r lo0 hi0 lo1 hi1 o0 o1 e0 e1 B : R),
+  (0 < r)%R -> (lo0 <= o0 <= hi0)%R -> (lo1 <= o1 <= hi1)%R -> (lo0 <= e0 <= hi0)%R -> (lo1 <= e1 <= hi1)%R ->
+  (o0 <> e0 \/ o1 <> e1) ->
+  let c := caster2 r lo0 hi0 lo1 hi1 o0 o1 e0 e1 in
+  (forall i, i < 2 -> (0 < Z.abs (nth i (rc_eidx c) 0 - nth i (rc_oidx c) 0))%Z ->
+     (nth i (rc_tmax c) 0 + IZR (Z.abs (nth i (rc_eidx c) 0 - nth i (rc_oidx c) 0)%Z) * nth i (rc_tdelta c) 0 <= B)%R) ->
+  (B < M)%R ->
+  let cells := cast_cells ROps c in
+  let l1 := RayCastProofs.sumf 2 (fun i => Z.abs (nth i (rc_eidx c) 0 - nth i (rc_oidx c) 0)%Z) in
+  (Z.of_nat (length cells) = l1 + 1)%Z /\
+  hd [] cells = rc_oidx c /\ last cells [] = rc_eidx c /\ chain 2 (rc_oidx c) (tl cells) /\
+  Forall (fun cl => forall i, i < 2 ->
+            (Z.min (nth i (rc_oidx c) 0) (nth i (rc_eidx c) 0) <= nth i cl 0 <= Z.max (nth i (rc_oidx c) 0) (nth i (rc_eidx c) 0))%Z) cells /\
+  Forall (meets 2 r (rho2 o0 o1 e0 e1) (org2 r lo0 lo1) [o0; o1] (dirv2 o0 o1 e0 e1)) cells.
+Proof. exact cast2_all. Qed.
+
+Theorem C14_cast_3d_end_to_end : forall (r lo0 hi0 lo1 hi1 lo2 hi2 o0 o1 o2 e0 e1 e2 B : R),
+  (0 < r)%R -> (lo0 <= o0 <= hi0)%R -> (lo1 <= o1 <= hi1)%R -> (lo2 <= o2 <= hi2)%R ->
+  (lo0 <= e0 <= hi0)%R -> (lo1 <= e1 <= hi1)%R -> (lo2 <= e2 <= hi2)%R ->
+  (o0 <> e0 \/ o1 <> e1 \/ o2 <> e2) ->
+  let c := caster3 r lo0 hi0 lo1 hi1 lo2 hi2 o0 o1 o2 e0 e1 e2 in
+  (forall i, i < 3 -> (0 < Z.abs (nth i (rc_eidx c) 0 - nth i (rc_oidx c) 0))%Z ->
+     (nth i (rc_tmax c) 0 + IZR (Z.abs (nth i (rc_eidx c) 0 - nth i (rc_oidx c) 0)%Z) * nth i (rc_tdelta c) 0 <= B)%R) ->
+  (B < M)%R ->
+  let cells := cast_cells ROps c in
+  let l1 := RayCastProofs.sumf 3 (fun i => Z.abs (nth i (rc_eidx c) 0 - nth i (rc_oidx c) 0)%Z) in
+  (Z.of_nat (length cells) = l1 + 1)%Z /\
+  hd [] cells = rc_oidx c /\ last cells [] = rc_eidx c /\ chain 3 (rc_oidx c) (tl cells) /\
+  Forall (fun cl => forall i, i < 3 ->
+            (Z.min (nth i (rc_oidx c) 0) (nth i (rc_eidx c) 0) <= nth i cl 0 <= Z.max (nth i (rc_oidx c) 0) (nth i (rc_eidx c) 0))%Z) cells /\
+  Forall (meets 3 r (rho3 o0 o1 o2 e0 e1 e2) (org3 r lo0 lo1 lo2) [o0; o1; o2] (dirv3 o0 o1 o2 e0 e1 e2)) cells.
+Proof. exact cast3_all. Qed.
+Print Assumptions C14_cast_3d_end_to_end.
+
+(* What stays outside the theorems: floating-point rounding (the walk of the float instance is observed, and the budget
+   rule makes C14_cast_walk independent of the values of the crossing parameters), the no-overflow bound B, the
+   coincident case o = e (one cell, no step; trivial in the model: ncells = 1), and casts on a caster whose crossing
+   parameters were advanced by an earlier cast() (operation K, outside the property). *)
 
 (* non-vacuity: a 2D caster on a 3-cell axis pair, origin cell (0,0), end cell (2,1) *)
 Example C14_ex :
